@@ -213,6 +213,39 @@ func main() {
 		}
 	}
 	A.run()
+	// function values that reach user code behind an interface: lock-free pseudo-wrappers
+	var callbacks []wfn
+	seenCb := map[*ssa.Function]bool{}
+	for round := 0; round < 5; round++ {
+		added := false
+		for _, w := range wrappers {
+			s := A.sum[w.fn]
+			if s == nil {
+				continue
+			}
+			var fs []*ssa.Function
+			for f := range s.EscFn {
+				fs = append(fs, f)
+			}
+			sort.Slice(fs, func(i, j int) bool { return fs[i].String() < fs[j].String() })
+			n := 0
+			for _, f := range fs {
+				n++
+				if seenCb[f] {
+					continue
+				}
+				seenCb[f] = true
+				A.record[f] = true
+				A.need(f)
+				callbacks = append(callbacks, wfn{fmt.Sprintf("%s$callback%d", w.name, n), f})
+				added = true
+			}
+		}
+		if !added {
+			break
+		}
+		A.run()
+	}
 
 	var table []*Wrapper
 	for _, w := range wrappers {
@@ -223,6 +256,11 @@ func main() {
 		wr, _ := A.analyzeWrapper(g.fn, g.name, true)
 		table = append(table, wr)
 	}
+	var cbTable []*Wrapper
+	for _, g := range callbacks {
+		wr, _ := A.analyzeWrapper(g.fn, g.name, true)
+		cbTable = append(cbTable, wr)
+	}
 	// a location synchronised by two different mutexes is not synchronised
 	demoted := map[string]bool{}
 	for loc, gs := range A.guardsOf {
@@ -231,7 +269,7 @@ func main() {
 			A.note("location " + loc + " is bracketed by different mutexes; its accesses are classed plain")
 		}
 	}
-	for _, wr := range table {
+	for _, wr := range append(append([]*Wrapper{}, table...), cbTable...) {
 		for _, s := range wr.Sections {
 			for k, v := range s.Acc {
 				if demoted[k.Loc] && (k.Kind == 'R' || k.Kind == 'W') {
@@ -274,9 +312,11 @@ func main() {
 	}
 	if *out == "" {
 		summary(table)
+		fmt.Println("-- callbacks handed to user code:")
+		summary(cbTable)
 		return
 	}
-	emit(*out, *jsonOut, *repo, table, consts, benignList, A, promoted)
+	emit(*out, *jsonOut, *repo, table, cbTable, consts, benignList, A, promoted)
 }
 
 type wfn struct {
@@ -423,6 +463,7 @@ type jsonWrapper struct {
 type jsonDump struct {
 	Repo           string        `json:"repo"`
 	Wrappers       []jsonWrapper `json:"wrappers"`
+	Callbacks      []jsonWrapper `json:"callbacks_handed_to_user_code"`
 	Consts         Consts        `json:"constants"`
 	Benign         []string      `json:"benign_applied"`
 	Notes          []string      `json:"notes"`
@@ -467,9 +508,9 @@ func classify(wr *Wrapper) string {
 	return ""
 }
 
-func emit(out, jsonOut, repo string, table []*Wrapper, consts Consts, benign []*benignEntry, A *Analyzer, promoted []string) {
+func emit(out, jsonOut, repo string, table, cbTable []*Wrapper, consts Consts, benign []*benignEntry, A *Analyzer, promoted []string) {
 	locSet := map[string]bool{}
-	for _, wr := range table {
+	for _, wr := range append(append([]*Wrapper{}, table...), cbTable...) {
 		for _, s := range wr.Sections {
 			for k := range s.Acc {
 				locSet[k.Loc] = true
@@ -537,52 +578,61 @@ func emit(out, jsonOut, repo string, table []*Wrapper, consts Consts, benign []*
 		return r
 	}
 	jd := jsonDump{Repo: repo, Consts: consts, Promoted: promoted, Functions: len(A.order)}
-	b.WriteString("Definition table : list wrapper := [\n")
 	var exceptions [][2]string
 	var irregulars [][2]string
-	for i, wr := range table {
-		shape := "Regular"
-		if wr.Irregular != "" {
-			shape = "Irregular"
-			irregulars = append(irregulars, [2]string{wr.Name, wr.Irregular})
-		}
-		fmt.Fprintf(&b, "  {| w_name := %s; w_shape := %s; w_sections := [", coqStr(wr.Name), shape)
-		jw := jsonWrapper{Name: wr.Name, File: wr.File, Irregular: wr.Irregular, APICalls: keys(wr.APICalls), Spawns: wr.Spawns, Synthetic: wr.Synthetic}
-		for j, s := range wr.Sections {
-			m := map[string]string{"R": "R", "W": "W", "N": "NoLock"}[s.Mode]
-			if j > 0 {
-				b.WriteString(";")
+	emitTable := func(defName string, table []*Wrapper, isMain bool) {
+		fmt.Fprintf(&b, "Definition %s : list wrapper := [\n", defName)
+		for i, wr := range table {
+			shape := "Regular"
+			if wr.Irregular != "" {
+				shape = "Irregular"
+				irregulars = append(irregulars, [2]string{wr.Name, wr.Irregular})
 			}
-			fmt.Fprintf(&b, "\n     {| s_mode := %s; s_callees := %s;\n        s_pr := %s;\n        s_pw := %s;\n        s_ar := %s;\n        s_aw := %s |}",
-				m, coqStrList(keys(s.Callees)), nums(s, 'r'), nums(s, 'w'), nums(s, 'R'), nums(s, 'W'))
-			jw.Sections = append(jw.Sections, jsonSection{Mode: s.Mode, Callees: keys(s.Callees), PR: names(s, 'r', false), PW: names(s, 'w', false),
-				AR: names(s, 'R', false), AW: names(s, 'W', false), PWSites: names(s, 'w', true), AWSites: names(s, 'W', true)})
+			fmt.Fprintf(&b, "  {| w_name := %s; w_shape := %s; w_sections := [", coqStr(wr.Name), shape)
+			jw := jsonWrapper{Name: wr.Name, File: wr.File, Irregular: wr.Irregular, APICalls: keys(wr.APICalls), Spawns: wr.Spawns, Synthetic: wr.Synthetic}
+			for j, s := range wr.Sections {
+				m := map[string]string{"R": "R", "W": "W", "N": "NoLock"}[s.Mode]
+				if j > 0 {
+					b.WriteString(";")
+				}
+				fmt.Fprintf(&b, "\n     {| s_mode := %s; s_callees := %s;\n        s_pr := %s;\n        s_pw := %s;\n        s_ar := %s;\n        s_aw := %s |}",
+					m, coqStrList(keys(s.Callees)), nums(s, 'r'), nums(s, 'w'), nums(s, 'R'), nums(s, 'W'))
+				jw.Sections = append(jw.Sections, jsonSection{Mode: s.Mode, Callees: keys(s.Callees), PR: names(s, 'r', false), PW: names(s, 'w', false),
+					AR: names(s, 'R', false), AW: names(s, 'W', false), PWSites: names(s, 'w', true), AWSites: names(s, 'W', true)})
+			}
+			sep := ";"
+			if i == len(table)-1 {
+				sep = ""
+			}
+			var es []int
+			var esn []string
+			for l, site := range wr.Escapes {
+				es = append(es, id[l])
+				esn = append(esn, l+" @ "+site)
+			}
+			sort.Ints(es)
+			sort.Strings(esn)
+			eq := make([]string, len(es))
+			for i, n := range es {
+				eq[i] = fmt.Sprint(n)
+			}
+			jw.Escapes = esn
+			fmt.Fprintf(&b, "];\n     w_escapes := [%s] |}%s\n", strings.Join(eq, "; "), sep)
+			if ex := classify(wr); ex != "" && isMain {
+				exceptions = append(exceptions, [2]string{wr.Name, ex})
+				jw.Exception = ex
+			}
+			if isMain {
+				jd.Wrappers = append(jd.Wrappers, jw)
+			} else {
+				jd.Callbacks = append(jd.Callbacks, jw)
+			}
 		}
-		sep := ";"
-		if i == len(table)-1 {
-			sep = ""
-		}
-		var es []int
-		var esn []string
-		for l, site := range wr.Escapes {
-			es = append(es, id[l])
-			esn = append(esn, l+" @ "+site)
-		}
-		sort.Ints(es)
-		sort.Strings(esn)
-		eq := make([]string, len(es))
-		for i, n := range es {
-			eq[i] = fmt.Sprint(n)
-		}
-		jw.Escapes = esn
-		fmt.Fprintf(&b, "];\n     w_escapes := [%s] |}%s\n", strings.Join(eq, "; "), sep)
-		if ex := classify(wr); ex != "" {
-			exceptions = append(exceptions, [2]string{wr.Name, ex})
-			jw.Exception = ex
-		}
-		jd.Wrappers = append(jd.Wrappers, jw)
+		b.WriteString("].\n\n")
 	}
-	b.WriteString("].\n\n")
+	emitTable("table", table, true)
+	b.WriteString("(* function values the wrappers hand to implementations behind an interface (user code may call\n   them at any time from any goroutine): each one as a lock-free pseudo-wrapper *)\n")
+	emitTable("callback_table", cbTable, false)
 	pairs := func(name, comment string, ps [][2]string) {
 		fmt.Fprintf(&b, "(* %s *)\nDefinition %s : list (string * string) := [", comment, name)
 		for i, p := range ps {
